@@ -11,13 +11,13 @@ extern "C" {
 #define C19_OUTLEN 16
 struct c19_bytes { const unsigned char* p; size_t n; };   /* p == NULL: the NULL pointer; otherwise NUL-terminated copy, n excludes the NUL */
 struct c19_op {
-    char table;                   /* 'M' select support, 'S' MockSupport_c, 'E' MockExpectedCall_c, 'A' MockActualCall_c */
+    char table;                   /* 'M' select support, 'S' MockSupport_c, 'E' MockExpectedCall_c, 'A' MockActualCall_c, 'T' a new test begins */
     const char* field;            /* field name of the struct (for 'M': "") */
     unsigned long long z[3]; int nz;   /* numbers: integer bit patterns, double bits, pointer bits */
     struct c19_bytes b[3]; int nb;     /* names, strings, buffers, objects */
     unsigned char* out;           /* output buffer of C19_OUTLEN bytes owned by this op (withOutputParameter*) */
 };
-struct c19_scn { struct c19_op* ops; int n; };
+struct c19_scn { struct c19_op* ops; int n; int lo, hi; };   /* [lo, hi): the ops of the test being run (tests are separated by 'T') */
 extern struct c19_scn c19;
 
 /* recorder (implemented in C19.cpp) */
@@ -44,7 +44,8 @@ extern const c19_eq_fn c19_eq_pool[C19_NEQ];
 extern const c19_str_fn c19_str_pool[C19_NSTR];
 extern const c19_copy_fn c19_copy_pool[C19_NCOPY];
 
-void c19_c_body(void);            /* the C interpreter, in C19_c.c */
+void c19_c_body(void);            /* the C interpreter, in C19_c.c: runs the ops [c19.lo, c19.hi) */
+void c19_c_reset(void);           /* forget the table pointers held by the C interpreter (start of a scenario) */
 #ifdef __cplusplus
 }
 #endif
